@@ -96,11 +96,20 @@ CHECKS = {
                   'within the bound behaves like numpy indexing of a plain list on the real containers.',
              note='Trusted: z3/cvc5, the kbmc numpy model (comparison, astype/copy aliasing, np.add with out/where casting), numpy itself as the oracle for which positions an index selects.  HDF5Signatures is included through a real file written at harness import.',
              ref='3/C20'),
+ 'C12': dict(engine='X', category='exploration', technique='CrossHair/z3-driven exhaustive case split over pools of signature collections (container kind, ID kind, metadata, compression; inside each cell k-mer parameters x stored integer type x length pattern); every cell writes a real file with dump_signatures and reads it back with load_signatures',
+             text='For every pooled collection the loaded file has the same k-mer parameters, IDs (with their kind), metadata and, for every integer index, every slice over a small range, a set of index lists and a mask, '
+                  'the same signatures with the same integer type; ten kinds of foreign file under four names are refused with SignaturesFileError.',
+             note='Bounded exploration over finite pools, not a proof; h5py / libhdf5 are executed, not encoded.  szip and files that merely start with the HDF5 magic number are outside.',
+             ref='3/C12'),
+ 'C18': dict(engine='X', category='exploration', technique='CrossHair/z3-driven exhaustive case split over bounded histories (way of opening the database x sequence of operations); every history runs natively on a private copy of the real SQLite + HDF5 files',
+             text='For every history of 2 (quick) / 3 (thorough) operations out of 12 kinds (query, distance matrix + tree, signature inspection, failing calls, reopen, rollback, ORM add / edit / delete followed by flush or by an '
+                  'autoflushing query, commit), with the database opened by the library or by the CLI context, both files are byte-identical (sha256) after every step and after closing, no data-modifying SQL statement '
+                  'reaches the engine, and commit() is refused.',
+             note='Bounded exploration, not a proof: the solver only enumerates the histories; what SQLite / libhdf5 do below the file API is executed, not encoded.  Longer histories, raw SQL and crashes are outside.',
+             ref='3/C18'),
 }
 
 NOT_APPLICABLE = {
- 'C12': 'HDF5 round-trip is decided inside libhdf5/h5py (FFI + file I/O); no repository-level computation to encode for a solver.',
- 'C18': 'File immutability is decided inside SQLite/libhdf5 and the file system; the Python remainder has no input to quantify over.',
  'C19': 'Crash points between libhdf5 calls and the library\'s flushing behaviour cannot be encoded symbolically.',
 }
 PENDING = 'not claimed'
@@ -120,7 +129,7 @@ def main():
             'evidence_file': f'/verif/evidence/{pid}.json',
             'replay_cmd_template': './vcheck replay {path}',
             'engine': 'kbmc' if c['engine'] == 'K' else ('crosshair' if c['engine'] == 'X' else 'kbmc+crosshair'),
-            'level_claimed': {'category': 'model_checking', 'text': c['text'], 'design_ref': f'DESIGN.md section {c["ref"]}'},
+            'level_claimed': {'category': c.get('category', 'model_checking'), 'text': c['text'], 'design_ref': f'DESIGN.md section {c["ref"]}'},
             'level_note': c['note'],
             'technique': c['technique'],
         })
